@@ -6,6 +6,7 @@ import (
 	"os"
 	"sort"
 	"strings"
+	"time"
 )
 
 func main() {
@@ -41,11 +42,36 @@ func cmdVF(args []string) {
 	e := newEngine(*repo)
 	e.timeout = *timeout
 	e.allSafety = *allsafe
+	if os.Getenv("GOVC_GEN") != "" {
+		*gen = true
+	}
 	cleanup, err := e.setup(*verif, *gen, *keep)
 	defer cleanup()
 	if err != nil {
 		fmt.Fprintln(os.Stderr, "setup:", err)
 		os.Exit(2)
+	}
+	if len(fs.Args()) >= 3 && (fs.Arg(0) == "functype" || fs.Arg(0) == "iface") {
+		// vf functype|iface <contract key> <function substring>
+		for _, w := range e.refinementsOf(fs.Arg(0), fs.Arg(1)) {
+			if !strings.Contains(w.fn.String(), fs.Arg(2)) {
+				continue
+			}
+			r := e.verifyFunction(w.fn, w.fc)
+			e.discharge(r.Obls)
+			fmt.Printf("== %s refines %s paths=%d obligations=%d\n", w.fn.String(), fs.Arg(1), r.Paths, len(r.Obls))
+			if r.Err != "" {
+				fmt.Printf("   ERROR: %s\n", r.Err)
+			}
+			for _, o := range r.Obls {
+				st := "ok  "
+				if !o.ok() {
+					st = "FAIL"
+				}
+				fmt.Printf("   %s %-60s %-8s %-7s %.2fs %dB\n", st, o.Name, o.Res.Status, o.Res.Solver, o.Res.Secs, o.Bytes)
+			}
+		}
+		return
 	}
 	var keys []string
 	for k := range e.db.Funcs {
@@ -70,8 +96,13 @@ func cmdVF(args []string) {
 			continue
 		}
 		for _, fn := range fns {
+			t0 := time.Now()
 			r := e.verifyFunction(fn, fc)
+			t1 := time.Now()
 			e.discharge(r.Obls)
+			if os.Getenv("GOVC_DEBUG") != "" {
+				fmt.Fprintf(os.Stderr, "timing %s: gen %.2fs discharge %.2fs\n", k, t1.Sub(t0).Seconds(), time.Since(t1).Seconds())
+			}
 			fmt.Printf("== %s (%s) paths=%d obligations=%d %.1fs\n", k, fn.String(), r.Paths, len(r.Obls), r.Secs)
 			if r.Err != "" {
 				fmt.Printf("   ERROR: %s\n", r.Err)
